@@ -246,8 +246,7 @@ def check_merge(rec: core.Recorder, *, op: str, pre: dict, res: dict, amount, ax
                 fail("runs are not `amount` adjacent bins each (last run shorter)", ["bins"], axis_checked=ax, groups=groups[:8], expected=want[:8])
         ef = np.stack([np.take(ef, range(a, b), axis=ax).sum(axis=ax) for a, b in groups], axis=ax) if groups else ef
         ee = np.stack([np.take(ee, range(a, b), axis=ax).sum(axis=ax) for a, b in groups], axis=ax) if groups else ee
-    _rd = np.dtype(res["dtype"])
-    _rtol = max(1e-12, 2 * float(np.finfo(_rd).eps)) if _rd.kind == "f" else 1e-12  # one rounding into a narrow float content type
+    _rtol = 1e-12  # the sums are kept as they are: a narrow content type that cannot hold them is widened
     if rf.shape != ef.shape or not np.allclose(rf, ef, rtol=_rtol, atol=0):
         fail("contents of the merged bins are not the sums of their runs", ["frequencies"], got=rf.ravel()[:10], expected=ef.ravel()[:10])
     if re_.shape != ee.shape or not np.allclose(re_, ee, rtol=_rtol, atol=0):
@@ -256,14 +255,24 @@ def check_merge(rec: core.Recorder, *, op: str, pre: dict, res: dict, amount, ax
         if k in pre and pre[k] != res.get(k):
             if k == "dtype":
                 # the sums of a run may not fit a compact content type: then (and only then) the type is widened losslessly
-                d0, d1 = np.dtype(pre["dtype"]), np.dtype(res.get("dtype"))
-                top = float(np.iinfo(d0).max) if d0.kind in "iu" else float(np.finfo(d0).max)
-                biggest = max(float(np.max(rf, initial=0)), float(np.max(re_, initial=0)))
-                if np.can_cast(d0, d1) and biggest > top:
+                if merge_widening_justified(pre["dtype"], res.get("dtype"), rf, re_):
                     continue
             if k in ("underflow", "overflow", "inner_missed", "missed") and pre[k] != "nan" and res.get(k) != "nan" and float(pre[k]) == float(res.get(k)):
                 continue
             fail(f"merge_bins changed {k}", [k], before=pre[k], after=res.get(k))
+
+
+def merge_widening_justified(before, after, freq, err2) -> bool:
+    """The sums of merged bins may not fit a compact content type, or not be numbers of it: then, and only then, the type
+    is widened losslessly."""
+    d0, d1 = np.dtype(before), np.dtype(after)
+    if not np.can_cast(d0, d1):
+        return False
+    for a in (np.asarray(freq, dtype=np.float64), np.asarray(err2, dtype=np.float64)):
+        with np.errstate(all="ignore"):
+            if not np.array_equal(a.astype(d0).astype(np.float64), a, equal_nan=True):
+                return True
+    return False
 
 
 class MergeMonitor(Handler):
@@ -371,6 +380,8 @@ def check_1d_index(rec: core.Recorder, *, op: str, pre: dict, index, result, exc
     # what must be refused
     must_refuse = False
     unordered = False
+    if isinstance(index, np.ndarray) and index.ndim == 0 and index.dtype.kind in "iu":
+        index = int(index)  # numpy: a 0-d integer array is an integer index
     if isinstance(index, (int, np.integer)) and not isinstance(index, bool):
         must_refuse = not (-n <= index < n)
     elif isinstance(index, slice):
@@ -397,6 +408,9 @@ def check_1d_index(rec: core.Recorder, *, op: str, pre: dict, index, result, exc
         fail(f"valid index expression refused: {type(exc).__name__}", ["raised"], error=str(exc)[:120])
         return
     if isinstance(index, (int, np.integer)):
+        if not (isinstance(result, tuple) and len(result) == 2):
+            fail("integer index does not return that bin's edges and content", ["return"], got=type(result).__name__)
+            return
         eb, ec = result
         if not (np.array_equal(np.asarray(eb, dtype=float), bins[index]) and float(ec) == float(f[index])):
             fail("integer index does not return that bin's edges and content", ["return"], got=[np.asarray(eb).tolist(), float(ec)], expected=[bins[index].tolist(), float(f[index])])
